@@ -657,6 +657,24 @@ func c13BufferOwnership(c *core.Ctx) {
 	em := c.Fn(R, "webtransport.(*messageWriter).endMessage")
 	if em != nil {
 		g := em.Graph()
+		// PAIR(pool.Put, writeBuf = nil): a buffer handed back to the pool is no longer the connection's
+		for _, cl := range em.Calls() {
+			if cl.Name != "Put" || cl.Recv == nil || fieldOf(em.Info(), cl.Recv) != "Conn.writePool" {
+				continue
+			}
+			dropped := false
+			for _, a := range fieldAssigns(em, "Conn.writeBuf") {
+				if core.IsNil(em.Info(), a.Rhs) && g.Dominates(cl.Loc, a.Loc) {
+					dropped = true
+					for _, r := range returnsIn(em) {
+						if g.Dominates(cl.Loc, r.Loc) && !g.Dominates(a.Loc, r.Loc) {
+							dropped = false
+						}
+					}
+				}
+			}
+			c.Check(R, "webtransport.(*messageWriter).endMessage/Put⇒writeBuf=nil", cl.Pos(), dropped, "after returning the buffer to the pool the connection forgets it (otherwise two connections write into one buffer)")
+		}
 		poolG := nilGuard(true, func(u *core.Unit, x ast.Expr) bool { return fieldOf(u.Info(), x) == "Conn.writePool" })
 		for _, a := range fieldAssigns(em, "Conn.writeBuf") {
 			c.Check(R, "webtransport.(*messageWriter).endMessage/release-only-with-pool", a.Stmt.Pos(), g.GuardedBy(a.Loc, poolG),
